@@ -7,19 +7,39 @@ MANIFEST = dict(
     text="Lean 4 theorems over an executable chunk-level model of src/chunk.c (append family, get/use_memory, steal, "
          "steal_with_tempfiles incl. pwritev partial-write recovery and to_tempfiles, append_mem_to_tempfile, "
          "mark_written, compact, remove_empty, peek/read/read_squash, append_cq_range, reset) with scripted "
-         "write/mkostemp fault schedules: an inductive invariant (exact bytes_in/bytes_out accounting, one owning "
-         "chunk per temp file spanning the whole file) holds after every history; every operation refines a "
-         "byte-string FIFO (c17_refines_fifo), a spill that reports an error leaves a prefix and removes exactly "
-         "what it moved (c17_fault_safe), descriptors and temp-file names are conserved and none remain after "
-         "reset (c17_resources_conserved, c17_reset_releases_all); model tied to the C by differential op-sequence "
-         "runs of the real chunk.c under ASan/UBSan with interposed pwritev/pwrite/mkostemp",
+         "write/mkostemp fault schedules (short write, EINTR, ENOSPC, EIO/EBADF, mkostemp failure). PROVED, for every "
+         "history and every schedule: an inductive invariant (exact bytes_in/bytes_out accounting; every file chunk "
+         "readable: own descriptor, owned temp-file name, or application file; one owning chunk per temp file "
+         "spanning the whole file) (c17_invariant, c17_length_exact); every operation that does not report an error "
+         "acts on the queued bytes like a byte-string FIFO, at every point of a history (c17_refines_fifo, "
+         "c17_history_refines, c17_steal_fifo, c17_read_data); read_data/peek_data of queued bytes succeed and hand "
+         "out exactly the head of the queue, i.e. every queued byte comes out (c17_read_progress, c17_peek_progress); "
+         "a spill that reports an error has duplicated/reordered/modified nothing, removed from the source exactly "
+         "what it moved and left a prefix in the destination (c17_fault_safe) - it MAY drop bytes the destination "
+         "held in MEM chunks before the call (c17_fault_drops_queued_bytes is the witness; the error is surfaced); "
+         "descriptors and temp-file names are conserved and none remain after reset (c17_resources_conserved, "
+         "c17_reset_releases, c17_reset_releases_all); schedules of ok / short writes / EINTR only (no mkostemp "
+         "failure, an upload dir left, no read-only temp chunk) never make append_mem_to_tempfile or "
+         "steal_with_tempfiles report an error - so the retry loops' iteration bounds suffice there - and the "
+         "transfer is then an exact FIFO move (c17_retryable_never_fails, c17_retryable_fifo). NOT PROVED, "
+         "correspondence-tested only: that ENOSPC falls back to the next upload dir before failing, and that the "
+         "iteration bounds of the model's retry loops are never the reason for a reported error under schedules "
+         "containing ENOSPC/EIO (the model's return codes are compared with the C at every fault position of 40/600 "
+         "spill sequences; an exhausted bound would show as sw:-1/mt:-1 against the C's 0). Model tied "
+         "to the C by differential op-sequence runs of the real chunk.c under ASan/UBSan with interposed "
+         "pwritev/pwrite/mkostemp plus an independent byte-string oracle (content, counters, readability of every "
+         "queued byte, temp files on disk, open descriptors after every operation)",
     note="trusted: Lean kernel (+propext, Quot.sound, Classical.choice), hand-written model validated by the "
-         "h_cq correspondence (chunk layout, counters, content CRC, temp-dir listing and descriptor count "
-         "after every operation), kernel file semantics (a failed write writes nothing, a short write a prefix, "
-         "unlinked files stay readable through open descriptors); splice()/sendfile()/mmap paths, read faults "
-         "and close() failures are outside the model; two queues",
+         "h_cq correspondence (chunk layout, counters, content CRC over the bytes that can actually be read, "
+         "temp-dir listing and descriptor count after every operation), kernel file semantics (a failed write "
+         "writes nothing, a short write a prefix, unlinked files stay readable through open descriptors, open() of "
+         "an existing name succeeds). Outside the model: splice()/sendfile()/mmap paths, read faults (pread/open/"
+         "dup errors), close() failures, chunkqueue_set_tempdirs() during the life of a queue, buffers >= 4 GiB; "
+         "two queues; caller obligations of chunk.h (file ranges inside the file, mark_written <= length, "
+         "compact_mem on MEM-only queues) are hypotheses (OpOK) resp. harness guards. The model describes the "
+         "repaired behaviour for five defects found by this check (D43-D46 and the closed-temp-chunk copy)",
     tech="Lean 4 proof over hand-written model + differential correspondence (in-process C harness, "
-         "scripted I/O faults)",
+         "scripted I/O faults) + independent reference oracle",
     ref="6/C17")
 
 # --------------------------------------------------------------------------
